@@ -55,7 +55,14 @@ def main():
     def series(values, stamps):
         return pd.Series(np.array(values, dtype=float), index=pd.DatetimeIndex(stamps))
 
-    ns0 = dict(np=np, pd=pd, nan=float("nan"), inf=float("inf"), dutils=dutils,
+    def attempt(f, *args, **kwargs):
+        """call f; a Python exception is an allowed answer and the sequence goes on"""
+        try:
+            return f(*args, **kwargs)
+        except Exception:                  # noqa
+            return None
+
+    ns0 = dict(np=np, attempt=attempt, pd=pd, nan=float("nan"), inf=float("inf"), dutils=dutils,
                qualitycontrol=qualitycontrol, signatures=signatures, metrics=metrics,
                armodels=armodels, sutils=sutils, hygrid=hygrid, gutils=gutils, Grid=Grid,
                Catchment=Catchment, c_hydrodiy_data=c_hydrodiy_data,
